@@ -656,6 +656,12 @@ static void pct3_eval(uint64_t idx, void *ctx) {
 }
 
 /* ------------------------------------------------------------------ section: dec ------------ */
+static int hexv(uint8_t c) {
+    if (c >= '0' && c <= '9') return c - '0';
+    if (c >= 'a' && c <= 'f') return c - 'a' + 10;
+    if (c >= 'A' && c <= 'F') return c - 'A' + 10;
+    return -1;
+}
 static void dec_check(const uint8_t *t, size_t n, size_t start) {
     uint8_t ref[16];
     long rl = r_decode(t, n, ref);
@@ -673,6 +679,26 @@ static void dec_check(const uint8_t *t, size_t n, size_t start) {
         BEE_CHECK(rc == AWS_OP_ERR, "decode-accepts-malformed", "decode of \"%s\" succeeds although a '%%' is not followed by two hex digits (gives \"%s\")", v_show(t, n),
                   out.len >= start && out.len <= out.capacity ? v_show(out.buffer + start, out.len - start) : "?");
         BEE_CHECK(rc != AWS_OP_ERR || err == AWS_ERROR_MALFORMED_INPUT_STRING, "decode-error-code", "decode of \"%s\": error %d instead of MALFORMED_INPUT_STRING", v_show(t, n), err);
+        if (rc == AWS_OP_ERR) {
+            /* a refused decode may have appended what it decoded before the bad escape, but it must not report bytes it never
+             * decoded (added after a seeded change that advanced len before validating the escape) */
+            uint8_t part[16];
+            size_t pn = 0;
+            for (size_t i = 0; i < n;) {
+                if (t[i] != '%') {
+                    part[pn++] = t[i++];
+                    continue;
+                }
+                int h = i + 1 < n ? hexv(t[i + 1]) : -1, l = i + 2 < n ? hexv(t[i + 2]) : -1;
+                if (h < 0 || l < 0) break;
+                part[pn++] = (uint8_t)(h * 16 + l);
+                i += 3;
+            }
+            BEE_CHECK(out.len >= start && out.len <= out.capacity && out.len - start <= pn && prefix_intact(&out, start) &&
+                          (out.len == start || memcmp(out.buffer + start, part, out.len - start) == 0),
+                      "refused-decode-reports-undecoded-bytes", "decode of \"%s\" at len %zu is refused but leaves len %zu: only %zu byte(s) \"%s\" precede the malformed escape, buffer holds \"%s\"",
+                      v_show(t, n), start, out.len, pn, v_show(part, pn), out.len >= start && out.len <= out.capacity ? v_show(out.buffer + start, out.len - start) : "?");
+        }
     } else {
         BEE_CHECK(rc == AWS_OP_SUCCESS, "decode-rejects-wellformed", "decode of \"%s\" fails with error %d", v_show(t, n), err);
         if (rc == AWS_OP_SUCCESS)
